@@ -35,12 +35,14 @@ from .. import c08_live as L
 PID = "C08"
 GEN = os.path.join(SPEC, "gen")
 ALL_FLAVOURS = ["full", "raw", "nodef", "rawnodef", "prim", "noinj", "lenient"]
-ALL_TEMPLATES = ["T1", "T2", "T3", "T4", "T5"]
-ALL_ACTS = {"Query", "SetCompVar", "DelCompVar", "SetArgs", "SetNp", "DelNp", "SetGlobal", "SetStageVar",
+ALL_TEMPLATES = ["T1", "T2", "T3", "T4", "T5", "T6"]
+P3 = ("default", "p1", "p2")
+DERIVED = dict(rivals=("0", "5"), ipvals=("B",))
+ALL_ACTS = {"Query", "SetCompVar", "DelCompVar", "SetArgs", "SetNp", "DelNp", "SetRi", "DelRi", "SetIp", "DelIp", "SetGlobal", "SetStageVar",
             "SetPlatformGlobal", "SetPlatformStage", "InPlaceGlobal", "InPlaceStage", "AddComp", "ReplaceComp",
             "DeleteComp", "MutateReturned"}
-ALL_KINDS = {"ok", "done", "ComponentUnknown", "VariableUnknown", "ConvertError", "ComponentExists", "KeyError"}
-KNOWN_DEVIATION_KEYS = {"unescaped-component-name-in-invalidation-regex", "lenient-query-result-cached-for-strict-queries"}
+ALL_KINDS = {"ok", "done", "ComponentUnknown", "VariableUnknown", "ConvertError", "ComponentExists", "KeyError", "PlatformUnknown"}
+KNOWN_DEVIATION_KEYS = L.KNOWN_DEVIATIONS
 
 
 def tla_set(xs):
@@ -69,7 +71,7 @@ def write_module(name, stages, hits, extends="ConfigCache", extra=""):
             'mcCompSeq == <<"c1", "c2">>',
             'mcStageOf == ("c1" :> %d @@ "c2" :> %d)' % (stages[0], stages[1]),
             'mcHits == ("c1" :> %s @@ "c2" :> %s)' % (tla_set(sorted(hits["c1"])), tla_set(sorted(hits["c2"]))),
-            'mcPlatSeq == <<"default", "p1">>', extra, "===="]
+            'mcPlatSeq == <<"default", "p1", "p2">>', extra, "===="]
     # several emission / simulation threads generate the module of one world while TLC processes of the same world are
     # parsing it: never truncate it in place
     path = os.path.join(GEN, name + ".tla")
@@ -90,8 +92,14 @@ def write_module(name, stages, hits, extends="ConfigCache", extra=""):
 def write_cfg(name, vals=("1", "2"), flavours=ALL_FLAVOURS, templates=ALL_TEMPLATES, bases=(0,), lenient_poisons=False,
               hows=("api", "conf", "ref"), howdel=("api", "conf"), emit=False, maxlevel=100, spec="Spec", view=True,
               invariants=("TypeOK", "Coherent"), properties=("QueryFresh", "Private", "QueryPure"), constraint=None,
-              extra_const=""):
+              extra_const="", plats=("default", "p1"), argvals=("L", "R"), npvals=None, rivals=(), ipvals=(), derived_frozen=False):
+    """plats: the platforms that are queried and addressed by the variable mutators ("p2" = the one created on demand)"""
+    if npvals is None:
+        npvals = tuple(vals) + ("R",)
     lines = ["CONSTANTS", "  CompSeq <- mcCompSeq", "  StageOf <- mcStageOf", "  Hits <- mcHits", "  PlatSeq <- mcPlatSeq",
+             "  InitPlats = %s" % tla_set(L.INIT_PLATS), "  QueryPlats = %s" % tla_set(plats), "  MutPlats = %s" % tla_set(plats),
+             "  SetArgVals = %s" % tla_set(argvals), "  SetNpVals = %s" % tla_set(npvals), "  RiVals = %s" % tla_set(rivals),
+             "  IpVals = %s" % tla_set(ipvals), "  DerivedFrozen = %s" % ("TRUE" if derived_frozen else "FALSE"),
              "  Vals = %s" % tla_set(vals), "  Flavours = %s" % tla_set(flavours), "  Templates = %s" % tla_set(templates),
              "  BaseIds = {%s}" % ", ".join(str(b) for b in bases), "  LenientPoisons = %s" % ("TRUE" if lenient_poisons else "FALSE"),
              "  HowSet = %s" % tla_set(hows), "  HowDel = %s" % tla_set(howdel), "  Emit = %s" % ("TRUE" if emit else "FALSE"),
@@ -121,7 +129,7 @@ def probe_hits(runner, wid):
     """Which components' entries does FlowIRConcrete.invalidate_cache_for_component(c) remove?  Observed on the real code
     with one dummy entry per (component, platform) under the documented key component:<platform>:stage<i>:<name>."""
     w = runner.world(wid)
-    code = "1" + U * (1 + 2 * len(w.stage_seq)) + "|P-L-P-L-|0000|N"
+    code = w.plain_code()
     hits, errors = {}, {}
     for l in w.labels:
         conc = runner.FL.FlowIRConcrete(w.render(code), "default", {})
@@ -236,7 +244,7 @@ def _work(task):
         steps = r["walks"][wi]
         if r["edges"] is not None:
             steps = [r["edges"][i] for i in steps]
-        active = L.PLATS[(wi + r["flip"]) % 2]
+        active = L.ACTIVE[(wi + r["flip"]) % 2]
         res = runner.run_walk(r["world"], active, r["init"], steps, widx=wi)
         agg["executed"] += res["executed"]
         agg["queries"] += res["queries"]
@@ -345,13 +353,12 @@ def alphabet(w, flavours=ALL_FLAVOURS):
             for h in ("api", "conf", "ref"):
                 muts.append(dict(act="SetCompVar", c=c, p=U, st=-1, x=x, how=h))
         for h in ("api", "conf"):
-            muts.append(dict(act="DelCompVar", c=c, p=U, st=-1, x=U, how=h))
-            muts.append(dict(act="DelNp", c=c, p=U, st=-1, x=U, how=h))
+            for act in ("DelCompVar", "DelNp", "DelRi", "DelIp"):
+                muts.append(dict(act=act, c=c, p=U, st=-1, x=U, how=h))
         for h in ("api", "conf", "ref"):
-            for x in ("L", "R"):
-                muts.append(dict(act="SetArgs", c=c, p=U, st=-1, x=x, how=h))
-            for x in ("1", "2", "R"):
-                muts.append(dict(act="SetNp", c=c, p=U, st=-1, x=x, how=h))
+            for act, xs in (("SetArgs", ("L", "R")), ("SetNp", ("1", "2", "R")), ("SetRi", ("0", "5")), ("SetIp", ("B",))):
+                for x in xs:
+                    muts.append(dict(act=act, c=c, p=U, st=-1, x=x, how=h))
         for t in ALL_TEMPLATES:
             muts.append(dict(act="AddComp", c=c, p=U, st=-1, x=t, how="api"))
             muts.append(dict(act="ReplaceComp", c=c, p=U, st=-1, x=t, how="api"))
@@ -385,6 +392,13 @@ def systematic_histories(w):
     hs.append(fill + [fill[0], MUTATE_RETURNED] + after)                 # scribble over the copy handed out on a hit
     hs.append([fill[1], MUTATE_RETURNED] + after)                        # ... and on a miss (the value that was stored)
     hs.append(fill + [queries[1], MUTATE_RETURNED] + after)              # ... and over a raw result
+    # a platform created on demand, through either scope, followed by the in-place getters of the other scope
+    newp = L.PLATS[-1]
+    create = [m for m in muts if m["p"] == newp and m["act"] in ("SetPlatformGlobal", "SetPlatformStage") and m["x"] == "2"]
+    touch = [m for m in muts if m["p"] == newp and m["act"] in ("InPlaceGlobal", "InPlaceStage", "SetPlatformGlobal", "SetPlatformStage") and m["x"] != "2"]
+    for m1 in create:
+        for m2 in touch:
+            hs.append(fill + [m1] + fill + [m2] + after)
     # an absent component: delete, then every mutator on it is an error and every query must fail (not be served from the cache)
     for c in w.labels:
         d = dict(act="DeleteComp", c=c, p=U, st=-1, x=U, how="api")
@@ -420,7 +434,7 @@ def _record(task):
     w = runner.world(wid)
     traces = []
     for t, h in enumerate(histories):
-        live = L.Live(runner.FL, runner.CONF, w, base_code, L.PLATS[(lo + t) % 2], runner.conf_pool)
+        live = L.Live(runner.FL, runner.CONF, w, base_code, L.ACTIVE[(lo + t) % 2], runner.conf_pool)
         steps = []
         for i, call in enumerate(h):
             if call["act"] == "MutateReturned" and live.handed is None:
@@ -428,7 +442,7 @@ def _record(task):
             a = dict(call)
             kind, res = live.apply(a, variant=lo + t + i)
             a["hit"] = False
-            a["ret"] = dict(kind=kind, **(L.project_result(res) if kind == "ok" else {"v": U, "args": U, "np": U}))
+            a["ret"] = dict(kind=kind, **(L.project_result(res) if kind == "ok" else L.NO_RESULT))
             keys = live.cache_keys()
             code = "%s|%s|%s" % (w.project_description(live.concrete.raw()), w.cache_code(set(keys.values())),
                                  live.handed_kind)
@@ -504,7 +518,7 @@ def selftest(rid):
                 if not any(s["a"]["act"] == act for s in steps):
                     continue
                 tried += 1
-                res = runner.run_walk(r["world"], L.PLATS[wi % 2], r["init"], steps, widx=wi)
+                res = runner.run_walk(r["world"], L.ACTIVE[wi % 2], r["init"], steps, widx=wi)
                 if res["finding"] and res["finding"]["kind"] == "violation" and keypart in res["finding"]["key"]:
                     found = res["finding"]["key"]
                     break
@@ -538,9 +552,23 @@ def design_runs(chk, tier):
         jobs.append(("over-hit, all templates", "ConfigCache_over", write_cfg("CC_d1_t", vals=("1",), **api), None, 16, True))
         jobs.append(("exact, two values, T2", "ConfigCache_exact", write_cfg("CC_d2_t", vals=("1", "2"), templates=("T2",), flavours=cached, **api), None, 16, False))
         jobs.append(("two stages, T2/T5", "ConfigCache_twostage", write_cfg("CC_d3_t", vals=("1",), templates=("T2", "T5"), flavours=cached, **api), None, 16, False))
-    # expected-to-fail models: the two deviations of the code, and the vacuity witnesses
+    # derived options (repeatInterval -> isRepeat with its stored copy, interpreter -> expandArguments): every call path of the
+    # source option, no variable setters; and the platform that is created on demand
+    noargs = dict(argvals=(), npvals=())
+    if tier == "quick":
+        jobs.append(("derived options", "ConfigCache_exact", write_cfg("CC_d4_q", vals=(), templates=("T6",), flavours=("full", "raw", "noinj", "prim"),
+                                                                        **noargs, **DERIVED, **api), None, 8, False))
+        jobs.append(("platform created on demand", "ConfigCache_exact", write_cfg("CC_d5_q", vals=("1",), templates=(), flavours=("full", "nodef"),
+                                                                                   plats=P3, **noargs, **api), None, 8, False))
+    else:
+        jobs.append(("derived options", "ConfigCache_over", write_cfg("CC_d4_t", vals=("1",), templates=("T6", "T2"), flavours=ALL_FLAVOURS,
+                                                                       plats=("default",), **noargs, **DERIVED, **api), None, 16, False))
+        jobs.append(("platform created on demand, two stages", "ConfigCache_twostage", write_cfg("CC_d5_t", vals=("1",), templates=(), flavours=("full", "nodef", "raw"),
+                                                                                               plats=P3, **noargs, **api), None, 16, False))
+    # expected-to-fail models: the deviations of the code, and the vacuity witnesses
     jobs.append(("deviation LenientPoisons", "ConfigCache_exact", write_cfg("CC_x1", vals=("1",), templates=("T5",), lenient_poisons=True, **api), "QueryFresh|Coherent", 2, False))
     jobs.append(("deviation Hits without self-hit", "ConfigCache_noself", write_cfg("CC_x2", vals=("1", "2"), templates=("T2",), **api), "QueryFresh|Coherent", 2, False))
+    jobs.append(("deviation DerivedFrozen", "ConfigCache_exact", write_cfg("CC_x3", vals=(), templates=(), derived_frozen=True, **noargs, **DERIVED, **api), "QueryFresh", 2, False))
     for wname in ("NeverHit", "NeverErrQuery", "NeverFull"):
         jobs.append(("witness " + wname, "ConfigCache_exact", write_cfg("CC_w_" + wname, vals=("1",), templates=("T2",), view=False,
                                                                        invariants=(wname,), properties=(), hows=("api",), howdel=("api",)), wname, 2, False))
@@ -631,7 +659,7 @@ def trace_verdicts(chk, runner, world, base, base_code, traces, r, stats):
         rejected += 1
         upto = bad.get(t, reached.get(t, 0) + 1)
         sp = [spec_steps[t][i] for i in range(1, reached.get(t, 0) + 1)]
-        res = runner.run_walk(world, L.PLATS[t % 2], base_code, sp, widx=t)
+        res = runner.run_walk(world, L.ACTIVE[t % 2], base_code, sp, widx=t)
         fs = res["known"] + ([res["finding"]] if res["finding"] else [])
         for f in fs:
             if f["kind"] == "violation":
@@ -688,18 +716,24 @@ def _run_check(chk, tier, thorough, runner, sd):
         hits[wid] = {l: set(h[l]) | {l} for l in h}        # the design needs the self-hit; over-hits are modelled as observed
     stats = {w: {"steps": 0, "planned_steps": 0, "walks": 0, "queries": 0, "cache_hits": 0, "drift": 0, "violations": 0} for w in worlds}
     small = dict(flavours=("full", "raw", "lenient"), templates=("T2", "T5"))
+    everything = dict(plats=P3, **DERIVED)
+    derived = dict(flavours=("full", "prim", "noinj"), templates=("T6",), argvals=(), npvals=(), vals=("1",), **DERIVED)
+    newplat = dict(flavours=("full", "nodef"), templates=(), argvals=(), npvals=(), plats=P3, hows=("api",), howdel=("api",))
     plan = []   # (world, base, maxlevel, tag, consts)
     if not thorough:
         plan += [("prefix", 0, 3, "full", dict(flavours=("full", "raw", "lenient"))), ("prefix", 1, 3, "small", small), ("prefix", 2, 3, "small", small),
                  ("stage", 0, 3, "small", dict(small, hows=("api", "ref"), howdel=("api",))), ("dot", 0, 3, "small", dict(small, hows=("api", "ref"), howdel=("api",))),
                  ("loop", 1, 3, "small", dict(small, hows=("conf",), howdel=("conf",))),
-                 ("plus", 0, 3, "small", dict(small, hows=("api",), howdel=("api",))), ("paren", 0, 2, "small", small)]
+                 ("plus", 0, 3, "small", dict(small, hows=("api",), howdel=("api",))), ("paren", 0, 2, "small", small),
+                 ("prefix", 2, 3, "derived", derived), ("prefix", 0, 3, "newplat", newplat), ("stage", 1, 3, "newplat", newplat)]
         sim_worlds, (nsim, depth) = ("prefix", "stage"), (60, 40)
         tr_plan = [("prefix", 0), ("prefix", 1), ("prefix", 2), ("stage", 0), ("dot", 0), ("loop", 1), ("plus", 0)]
         ntr, ltr = 30, 40
     else:
-        plan += [("prefix", b, 3, "full", {}) for b in (0, 1, 2)]
+        plan += [("prefix", b, 3, "full", everything) for b in (0, 1, 2)]
         plan += [("stage", b, 3, "full", {}) for b in (0, 1, 2)]
+        plan += [("stage", 2, 3, "derived", derived), ("stage", 0, 3, "newplat", dict(newplat, hows=("api", "conf", "ref"), howdel=("api", "conf"), templates=("T2",))),
+                 ("loop", 1, 3, "newplat", newplat), ("dot", 2, 3, "derived", derived)]
         plan += [("dot", 0, 3, "full", {}), ("loop", 0, 3, "full", {}), ("loop", 1, 3, "small", small)]
         plan += [("prefix", 0, 4, "deep", dict(flavours=("full", "lenient"), templates=("T5",), hows=("api",), howdel=("api",), vals=("2",)))]
         plan += [("plus", 0, 3, "small", small), ("plus", 1, 3, "small", small), ("paren", 0, 3, "small", small)]
@@ -711,14 +745,14 @@ def _run_check(chk, tier, thorough, runner, sd):
         design_future = bg.submit(design_runs, chk, tier)
         # 2. spec -> code: emission and simulation runs of TLC (one worker each) in parallel threads
         futs = [(p, ex.submit(emission, p[0], hits[p[0]], p[1], p[2], p[3], **p[4])) for p in plan]
-        sims = [((wid, b), ex.submit(simulation, wid, hits[wid], b, nsim, depth, sd + b)) for wid in sim_worlds for b in (0, 1, 2)]
+        sims = [((wid, b), ex.submit(simulation, wid, hits[wid], b, nsim, depth, sd + b, **everything)) for wid in sim_worlds for b in (0, 1, 2)]
         # 3. code -> spec: record driver-chosen histories on the real code, TLC follows them
         rng = random.Random(sd * 7919 + 17)
         trs = []
         nsys = 0
         for wid, b in tr_plan:
             w = runner.world(wid)
-            base_code = BASE_CODES[(len(w.stage_seq), b)]
+            base_code = w.base_code(b)
             hs = systematic_histories(w)
             nsys += len(hs)
             hs += random_histories(w, ntr, ltr, rng)
@@ -727,29 +761,32 @@ def _run_check(chk, tier, thorough, runner, sd):
         phase("recorded")
         rid = 0
         first_full = None
+        calls = set()
         for p, fut in futs:
             r = fut.result()
             edges = r["cases"]
             init, walks = make_walks(edges)
-            if init != BASE_CODES[(len(L.World(p[0]).stage_seq), p[1])]:
-                raise MachineryError("base description %s of the spec is %s, the driver expects %s" % (p[1], init, BASE_CODES[(len(L.World(p[0]).stage_seq), p[1])]))
+            if init != L.World(p[0]).base_code(p[1]):
+                raise MachineryError("base description %s of the spec is %s, the driver expects %s" % (p[1], init, L.World(p[0]).base_code(p[1])))
             rid += 1
             _RUNS[rid] = {"world": p[0], "init": init, "edges": edges, "walks": walks, "flip": rid}
             chk.add_tlc(r)
             execute(chk, rid, stats)
             stats[p[0]].setdefault("runs", []).append("%s base %d depth %d (%s): %d transitions, %d walks" % (p[0], p[1], p[2], p[3], len(edges), len(walks)))
+            if p[0] == "prefix":
+                c_, t_ = plan_coverage(edges, walks)
+                calls |= c_
             if first_full is None and p[0] == "prefix" and p[3] == "full":
                 first_full = rid
-                # vacuity of the emitted alphabet
-                calls, tr = plan_coverage(edges, walks)
-                acts = {c[0] for c in calls}
-                kinds = {c[2] for c in calls}
-                if acts != ALL_ACTS or not ALL_KINDS <= kinds or not any(c[3] for c in calls):
-                    raise MachineryError("emitted transitions do not cover the alphabet: missing actions %s, kinds %s, cache hit seen %s"
-                                         % (sorted(ALL_ACTS - acts), sorted(ALL_KINDS - kinds), any(c[3] for c in calls)))
             else:
                 _RUNS[rid] = None
             phase("edges %s/%d" % (p[0], p[1]))
+        # vacuity of the emitted alphabet (all runs of world prefix together)
+        acts = {c[0] for c in calls}
+        kinds = {c[2] for c in calls}
+        if acts != ALL_ACTS or not ALL_KINDS <= kinds or not any(c[3] for c in calls):
+            raise MachineryError("emitted transitions do not cover the alphabet: missing actions %s, kinds %s, cache hit seen %s"
+                                 % (sorted(ALL_ACTS - acts), sorted(ALL_KINDS - kinds), any(c[3] for c in calls)))
         for (wid, b), fut in sims:
             r = fut.result()
             init, behs = behaviours_from_simulation(r["cases"])
@@ -817,13 +854,6 @@ def _run_check(chk, tier, thorough, runner, sd):
                     "cache_hits": stats[wid]["cache_hits"], "violations": stats[wid]["violations"]}, limit=6)
     print("note: phases %s" % " ".join(phases))
     return chk.finish()
-
-
-# base descriptions of ConfigCache.tla as state codes (number of stages, base id); checked against TLC's initial states
-BASE_CODES = {
-    (1, 0): "1---|P-R-P-R-|0000|N", (1, 1): "121-|P1R2A-L-|0000|N", (1, 2): "----|P1RRP-LX|0000|N",
-    (2, 0): "1-----|P-R-P-R-|0000|N", (2, 1): "1221--|P1R2A-L-|0000|N", (2, 2): "------|P1RRP-LX|0000|N",
-}
 
 
 def run(tier):
